@@ -114,7 +114,7 @@ func init() {
 func init() {
 	register(&PropDef{
 		ID: "C19", Patterns: []string{"./interp"},
-		Extra: func(r *Run) { r.debuggerFrame() },
+		Extra: func(r *Run) { r.debuggerFrame(); r.sessionLifecycle() },
 		Covered: []string{"both loops of runCfg apply exec closures only behind the run-id gate (shared with C09)", "Debugger.exec/enterCall/exitCall assign only debugger state (f.debug, goroutine records, dbg.*)", "setBreakOnLine/setBreakOnCall set exactly their own flag; the visitor of SetBreakpoints keeps function breakpoints in the line pass and vice versa", "Debugger.exec: per-node stop decision against a ghost trace of the event callback (breakpoints always reported, step filters)", "node tracking of the debugger loop (known finding: code-pointer comparison; tie-break pinned)", "originalExecNode: the last matching node in walk order", "Step/Continue/setMode: resume requests reach the goroutine they name, mode and depth as requested"},
 		Uncov:   []string{"order of events across nodes and goroutines", "the terminate event and Interrupt"},
 		Trusted: []string{"T1 go toolchain, solvers", "T2 govc", "A3 sequential semantics"},
